@@ -40,7 +40,7 @@ CLAIMED = {
              'Expiry is an arbitrary environment deletion here; its timing is C14. Whole sessions with connection loss while requests are outstanding are checked by '
              'an oracle on the numbers written on all connections; that nothing rewinds the generators is read off esme.py by the translator (C13_generators_only_advanced). The bind response is '
              'taken positionally by connect(), outside the correlator. Proved for the code after fix afc8c80 (a response of another type used up the outstanding '
-             'request; C13_other_type_leaves_request). No axioms.',
+             'request; C13_other_type_leaves_request) and c0a3355 (after a restart on a persisted correlator the default generator continues after the stored numbers; two lives on one directory are run on every check). No axioms.',
         technique='Coq invariant proofs by induction over event histories (occurrence-count invariant, ghost ids) + modular arithmetic; trace correspondence against the real ESME',
         design='6 (C13)'),
     'C17': dict(
@@ -110,7 +110,7 @@ CLAIMED = {
              'response-before-put-under-backpressure (reproduced on the real ESME with a paused transport; witness theorem in Props/C14.v). '
              'The correlator\'s share of (d) is proved: put() stores the request in its first atomic piece, before its sweep can suspend in the hook '
              '(C14_put_visible_at_once). Session scenarios: slow sending hook (TTL counts from the write), send_error hook suspended inside put(). '
-             'Proved for the code after fixes 6160d29 (the sweep no longer raises KeyError) and 83211c4 (put() swept before storing). No axioms.',
+             'Answers in every shape an SMSC uses (message id, empty C-string, no body, vendor specific or reserved status, generic_nack) must be the only outcome; reconnects with a keep-alive short enough to reach an outstanding number again. Proved for the code after fixes 6160d29 (the sweep no longer raises KeyError), 83211c4 (put() swept before storing) and 1e300e5 (a vendor specific command_status ended the receiver). No axioms.',
         technique='Coq invariant proof (ownership counting + sweep-coverage invariant) by induction over arbitrary event interleavings; trace correspondence with suspending hooks',
         design='6 (C14)'),
     'C09': dict(
@@ -132,7 +132,7 @@ CLAIMED = {
              'an unsegmented message carries that identity and consumes the id (duplicates become unknown); unknown or id-less receipts get empty '
              'identity and change nothing; and for one segmented message accepted in full, with ANY number k>=2 of segments and ANY admissible '
              'interleaving of its puts, responses and receipts, every receipt but the completing one yields the placeholder and the completing one '
-             'exactly one receipt event with the message identity - a failing one as soon as any segment failed. Tied to the code by driving the real '
+             'exactly one receipt event with the message identity - a failing one as soon as any segment failed; the receipt of an unsegmented message keeps its identity in ANY state of the segment bookkeeping (C02_receipt_unsegmented: its sequence number may belong to a newer message by now); any integer as receipt error code is handled like the booked code below the internal status markers (C02_any_error_code). Tied to the code by driving the real '
              'handlers and correlator with real PDUs (independent encoder) over histories of 1-5 concurrent messages and comparing hook outputs, '
              'throttle counters and all four stores with the model evaluated in Coq.',
         note='Trusted: Coq kernel, translator, harness + smppref.py. The segmented theorem holds for ANY NUMBER of messages outstanding at once and any interleaving of their events (C02_concurrent_receipts: '
@@ -140,7 +140,7 @@ CLAIMED = {
              'covered by the correspondence runs and the oracle. Hypotheses: error codes '
              'below 65532 (the internal status codes), segments of two messages with the same reference are not stored interleaved (references may coincide since fix 78b3543: a message accepted in '
              'full keeps its own status cell while a later message re-uses its 8-bit reference; regression histories on every run), no '
-             'expiry during the history. Receipt texts whose echoed text looks like receipt fields are generated. Proved for the code after fixes d1270d3 (status cell covers all segments from the first put) 78b3543 (status cells keyed by reference alone) and 5cf0a3e (receipt text in message_payload). No axioms.',
+             'expiry during the history (sessions with receipts a minute, an hour and two days after the response run beside the histories), 2..255 segments. Message ids are case-sensitive strings whose neighbours differ only in case; receipt texts whose echoed text looks like receipt fields are generated; sequence numbers of answered unsegmented messages are re-used. KNOWN FINDING reproduced on every run: a sequence number re-used while a SEGMENTED message accepted under it waits for receipts (needs a generator that restarts or has a short period since fix c0a3355). Proved for the code after fixes d1270d3, 78b3543, 5cf0a3e (receipt text in message_payload), 0693b94 (1..255 segments), ccc4a36 (receipt of an unsegmented message under a re-used number), fbeb784 (error codes in the range of the status markers). No axioms.',
         technique='Coq proof: per-message phase invariant over dict lookups, one lemma per event kind, induction over admissible event lists; PDU-level trace correspondence',
         design='6 (C02)'),
     'C03': dict(
@@ -283,11 +283,11 @@ CLAIMED = {
              'receiver answering, keeper, stop(), suspending hooks, delayed bind responses, reconnects, probes suspended across a reconnect, '
              'messages queued during teardown) produce a global event log that is checked by wire_ok evaluated in Coq and by an oracle with an '
              'independent framer (whole PDUs announced beforehand, bind first, response after the received hook, each inbound PDU to the hook once, '
-             'no submit_sm from a receiver, state matches mode).',
+             'no submit_sm from a receiver, state matches mode). Model/RecvActions.v: handler, received hook and answer of one PDU as ordered actions with writes that may fail, parameterised by the order facts the translator reads off _receive_data/_handle_pdu/_handle_request: every PDU read reaches the hook exactly once whichever write of its handling fails (C15_handed_over_exactly_once), also when the receiver is cancelled while handling it (C15_read_pdu_survives_cancellation), and a parsed request is answered only after the hook returned (C15_answer_after_hook); compared with sessions whose answers cannot be written.',
         note='Trusted: Coq kernel, harness (global event log, virtual-time loop), atomicity of coroutine code between awaits, one transport.write per '
              'StreamWriter.write. The task and gate models are validated against real traces (every real trace satisfies the checked predicate), '
              'not derived from the source. Proved for the code after fixes 480fe1d, e8e2198 (AssertionError ended start() when stop() raced a '
-             'sender) and d33e5be (a probe whose hook outlived a reconnect was written before the new bind response). No axioms.',
+             'sender), d33e5be (a probe whose hook outlived a reconnect was written before the new bind response), 986282b (request whose negative answer could not be written never reached the hook) and 1858318 (response lost when the receiver was cancelled inside its correlation). No axioms.',
         technique='Coq proof: multiset invariant over all interleavings (merge relation), transition-system invariant for the bound gate, framing lemma from the command_length theorem; trace validation of real concurrent sessions',
         design='6 (C15)'),
     'C01': dict(
@@ -298,7 +298,7 @@ CLAIMED = {
              'the hooks see NO outcome while a segment is unprocessed and EXACTLY ONE once all are, carrying the message\'s log; it is the accepting '
              'submit_sm_resp iff every segment was accepted, otherwise a failure (send_error, or a nack / error-status response) - by a phase invariant '
              'over the correlator dictionaries with one lemma per event kind; the hook calls equal the specification event by event; a message that '
-             'is not segmented gets its response at once and its time-out through send_error. Tied to the code by driving the real '
+             'is not segmented gets its response at once and its time-out through send_error; the sender torn down in the middle of a message (Model/SenderCancel.v, rule read off the CancelledError handler by the translator): wherever the cancellation strikes - before or inside correlator.put() of any part - either the handler reports the message and the correlator never produces an outcome for it, or the handler keeps quiet and every part is recorded, so the outcome theorem applies (C01_cancelled_sender, C01_cancelled_plain; compared with the real _dequeue_messages cancelled at every such point). Tied to the code by driving the real '
              '_handle_response / SimpleCorrelator (expiry through the real sweep) with histories of 1-5 concurrent messages incl. re-used 8-bit '
              'references and comparing hook calls and all stores with the model; whole sessions on a virtual-time loop (real sender, SMSC '
              'accepting/rejecting/nacking/ignoring segments, suspending hooks, connection loss, reference wrap, unbuildable messages) are checked '
@@ -311,7 +311,7 @@ CLAIMED = {
              'Eventual delivery of the time-out relies on correlator traffic driving the sweep (keep-alive). Outside: the C14 known finding '
              '(response before put under write back-pressure: the message is then reported as timed out - still exactly one outcome). Proved for the '
              'code after fixes 66de80c, d1270d3, 8306826, 93e2bc6, 057982f, 900ad9f, d022cf6, 78b3543 (status cells keyed by reference alone), 8bacccc (stale '
-             'segment entry under a re-used sequence number). No axioms.',
+             'segment entry under a re-used sequence number), 0693b94 (1..255 segments: the theorems say 2 <= k <= 255), 750ead8 (sender cancelled inside put() reported twice), 1858318 (response lost when the receiver is cancelled inside its correlation). Sessions added in rounds 6-7: the application re-queues the object handed to send_error; the connection is lost while the send_error hook of an older message runs inside put() / inside get(). No axioms.',
         technique='Coq proof: phase invariant over dict lookups with one lemma per event kind, induction over admissible event lists; PDU-level trace correspondence and session-level oracle on a virtual-time loop',
         design='6 (C01)'),
 }
